@@ -47,6 +47,7 @@ thread_local! {
     static PHASE: Cell<Phase> = const { Cell::new(Phase::Other) };
     static STATS: RefCell<RunStats> = RefCell::new(RunStats::default());
     static ENTROPY: Cell<Option<u64>> = const { Cell::new(None) };
+    static QUIET: Cell<bool> = const { Cell::new(false) };
 }
 
 pub fn set_phase(p: Phase) -> Phase {
@@ -109,6 +110,16 @@ impl log::Log for SimLogger {
 }
 
 static LOGGER: SimLogger = SimLogger;
+
+/// Panics on run threads are data (the code under test); panics anywhere else
+/// are harness bugs and must be visible.
+pub fn install_panic_hook() {
+    std::panic::set_hook(Box::new(|info| {
+        if !QUIET.with(|q| q.get()) {
+            eprintln!("HARNESS PANIC: {}", info);
+        }
+    }));
+}
 
 pub fn install_logger() {
     let _ = log::set_logger(&LOGGER);
@@ -346,6 +357,7 @@ pub fn run_plain<T: Send + 'static>(entropy: Option<u64>, stack: usize, f: impl 
     let h = std::thread::Builder::new()
         .stack_size(stack)
         .spawn(move || {
+            QUIET.with(|q| q.set(true));
             set_thread_entropy(entropy);
             f()
         })
@@ -368,6 +380,7 @@ pub fn run_sim<T: Send + 'static>(
     let h = std::thread::Builder::new()
         .stack_size(RUN_STACK)
         .spawn(move || {
+            QUIET.with(|q| q.set(true));
             set_thread_entropy(entropy);
             let sched = SimScheduler::new(&knobs, replay, shared2);
             let mut cfg = shuttle::Config::new();
@@ -420,5 +433,5 @@ pub fn warm_up() {
     });
     assert_eq!(o.value, Some(3), "simulator warm-up failed: {:?}", o.abort_msg);
     assert_eq!(o.pool.steals, 1, "simulator warm-up: the stolen side did not run as its own task");
-    std::panic::set_hook(Box::new(|_| {}));
+    install_panic_hook();
 }
